@@ -9,7 +9,9 @@ CONSTANTS
   Ops = {}
   MaxInFlight = 0
   AuctionImpl = "intended"
+  Resolution = "locked"
   MaxRounds = 3
-INVARIANTS TypeOKC11 RegistrationExact SignedOverContent ReuseOnlyIfUnchanged FailureIsolated PreparationExact PreparationIsolated ControlledDropped ForwardedUnchanged ForwardedAll KeepsLastGood
+INVARIANTS TypeOKC11 RegistrationExact SignedOverContent ReuseOnlyIfUnchanged FailureIsolated PreparationExact PreparationIsolated ControlledDropped ForwardedUnchanged ForwardedAll F2ControlledDropped F2ForwardedUnchanged F2ForwardedAll KeepsLastGood
 CONSTRAINT RoundBound
+CONSTRAINT NoLane2
 CHECK_DEADLOCK FALSE
